@@ -115,6 +115,10 @@ type Spec struct {
 	// Percentage of file outputs that are relative symlinks to an input file
 	// of the job (only used with VDR off: martian does not track such links).
 	PassThroughPct int `json:"pass_through_pct,omitempty"`
+	// NestFilesPct: chance that an output file is written in a sub-directory
+	// of the job's files directory (its own directory with a one-character
+	// file name, or files/n1/n2/).
+	NestFilesPct int `json:"nest_files_pct,omitempty"`
 	// Set by the probe from a matching rule: value of every bool leaf.
 	ForceBool *bool `json:"-"`
 	EmptyPct  int   `json:"-"`
